@@ -1,10 +1,48 @@
 #!/usr/bin/env python3
-"""Print the seeded-change agent prompt for a property: tools/mutprompt.py C33 /tmp/mut-C33 3 'locks_test.py'"""
+"""Print the seeded-change agent prompt: tools/mutprompt.py <worktree> <n-per-property> C34:locks_test.py C35:queues_test.py ...
+The agent is given only property texts and a scratch worktree (nothing from /verif)."""
 import json, sys, os
-pid, wt, n, tests = sys.argv[1], sys.argv[2], sys.argv[3], sys.argv[4]
+wt, n = sys.argv[1], sys.argv[2]
 root = os.path.dirname(os.path.dirname(os.path.abspath(__file__)))
-p = [json.loads(l) for l in open(os.path.join(root, "properties.jsonl")) if json.loads(l)["id"] == pid][0]
-t = open(os.path.join(root, "notes", "MUTATOR_PROMPT.md")).read().split("\n\n", 1)[1]
-anch = "; ".join("%s (%s)" % (m["name"], m["where"]) for m in p["anchors"]["mechanism"])
-print(t.replace("{WT}", wt).replace("{STATEMENT}", p["statement"]).replace("{ANCHORS}", anch)
-       .replace("{N}", n).replace("{TESTS}", tests).replace("{TAG}", os.path.basename(wt)))
+props = {json.loads(l)["id"]: json.loads(l) for l in open(os.path.join(root, "properties.jsonl"))}
+tag = os.path.basename(wt)
+out = "/tmp/%s-out" % tag
+blocks = []
+for spec in sys.argv[3:]:
+    pid, _, tests = spec.partition(":")
+    p = props[pid]
+    anch = "; ".join("%s (%s)" % (m["name"], m["where"]) for m in p["anchors"]["mechanism"])
+    blocks.append("PROPERTY %s\n  \"%s\"\n  Anchored code: %s\n  Existing tests most relevant: %s" % (
+        pid, p["statement"], anch, " ".join("tornado/test/" + t for t in tests.split(",")) if tests else "(find them under tornado/test)"))
+print("""You are testing a verification tool's ability to catch regressions in the Python library
+tornado.  You work ONLY inside the git worktree {wt} (a checkout of tornado; python is
+/venv/bin/python; run things with `cd {wt} && PYTHONPATH={wt} /venv/bin/python ...` so that THIS
+checkout is imported, not /repo).  Do not look at or touch /verif or /repo.
+
+Below are {k} properties of tornado that must hold.  For EACH property make {n} DIFFERENT,
+realistic changes to tornado's source (each one separately, as its own patch against the clean
+worktree) that BREAK that property while the code still imports and the existing test suite still
+passes (run at least the listed test files with the change applied, e.g.
+`cd {wt} && /venv/bin/python -m pytest -q -p no:cacheprovider <files>`; the machine is heavily
+loaded, so timing-based tests such as process_test multi-process, autoreload, *linear_performance*
+may fail on the clean tree too - ignore those).  Each change must be the kind of bug a maintainer
+could plausibly introduce (a refactor gone wrong, an off-by-one, a dropped or reordered check, a
+state update moved across a callback, two cooperating sites that each look fine alone).  It must
+need something SPECIFIC to manifest - a particular interleaving, a crash or fault at a particular
+point, a multi-step sequence of operations, an unusual input - not something ordinary use exposes
+at once.  No giveaways (no comments saying it is a bug, no debug output).  Keep each patch small.
+
+{blocks}
+
+For each property <ID> and i = 1..{n} write into {out}/<ID>/ (create it):
+  change<i>.diff   `git diff` of the change against the clean worktree
+  demo<i>.py       a small standalone program that exits non-zero (failing assertion) with the
+                   change applied and exits 0 on the clean tree, demonstrating the property violation
+                   through tornado's public behaviour; it must put {wt} (or $TORNADO_SRC if set) at the
+                   front of sys.path itself; no network, no real sleeping beyond ~1 s
+  change<i>.md     what it breaks, why the existing tests miss it, what it needs to manifest
+After writing each diff run `git checkout -- .` so the next change starts from the clean tree (NEVER use
+`git stash`: the stash is shared by all worktrees of this repository and other agents use them), and
+verify both directions of each demo (clean tree: exit 0; with the change: non-zero) and that the
+listed tests pass with the change.  Finish with a short summary (one line per change).""".format(
+    wt=wt, n=n, k=len(blocks), blocks="\n\n".join(blocks), out=out))
